@@ -1032,17 +1032,55 @@ fn c20_strategy(tier: Tier) -> BoxedStrategy<Case> {
     Union::new_weighted(vec![(7, general), (3, special.boxed())]).boxed()
 }
 
+/// Deterministic scenario: a collection whose DFA would exceed the state-id
+/// space (about 4.4 million trie states with start kind Both and byte classes
+/// off). Building with an explicitly requested DFA must either report a
+/// build error or return a DFA - never silently hand back another kind.
+fn c20_extra(_tier: Tier, _seed: u64, ctx: &mut Ctx) -> Result<bool, Violation> {
+    let mut sd = 0x9e3779b97f4a7c15u64;
+    let full: Vec<u8> = (0..=255u8).collect();
+    let patterns: Vec<Vec<u8>> = (0..2200).map(|_| lcg_bytes(&mut sd, 2000, &full)).collect();
+    let stand_in = Case { prop: "C20".into(), sub: "scenario:dfa-state-id-overflow (2200 x 2000 random bytes)".into(), cfg: Cfg { engine: Engine::TopDfa, mk: Mk::Standard, sk: Sk::Both, prefilter: true, dense_depth: 2, byte_classes: false, casei: false }, ..Case::default() };
+    ctx.begin();
+    let r = guard(|| {
+        let _s = engine::SuspendBudget::new();
+        engine::top_builder(&stand_in.cfg).build(&patterns).map(|ac| (ac.kind(), ac.patterns_len()))
+    });
+    let out = match r {
+        Err(p) => Err(format!("building a collection beyond the DFA size limit panicked instead of reporting a BuildError: {}", p)),
+        Ok(Err(_build_error)) => {
+            ctx.class("scenario:dfa-overflow-reported-as-error");
+            Ok(())
+        }
+        Ok(Ok((kind, n))) => {
+            if kind != AhoCorasickKind::DFA {
+                Err(format!("kind(Some(DFA)) was requested but the build returned Ok with kind() = {:?}", kind))
+            } else if n != patterns.len() {
+                Err(format!("patterns_len {} != {}", n, patterns.len()))
+            } else {
+                ctx.class("scenario:dfa-built");
+                Ok(())
+            }
+        }
+    };
+    ctx.nontrivial();
+    ctx.end(&stand_in);
+    ctx.enumerated += 1;
+    out.map_err(|reason| Violation { case: stand_in.clone(), reason })?;
+    Ok(false)
+}
+
 pub const C20: PropDef = PropDef {
     id: "C20",
     rule: "shape-diverse pattern collections (none, only empty patterns, duplicates of everything, all 256 byte values, a trie node with up to 255 children, 101..140 patterns (automatic kind switch), up to 2500 (thorough 5000) patterns x up to 40 bytes, up to 50 patterns x 300 bytes, DFA engines with bounded total size) x every builder option combination (7 engines, 3 match kinds, 3 start kinds, prefilter, 6 dense depths, byte classes, case-insensitivity). \
-Oracle: build returns Ok without panic; an explicitly requested kind is kind(); patterns_len, min/max_pattern_len (non-empty collections), match_kind, start_kind equal the inputs; Automaton::pattern_len(i) == |P[i]| on the three low-level types; the non-overlapping iterator on a haystack containing some patterns equals the model (pattern ids are input positions). \
+One deterministic scenario beyond the DFA's state-id space (2200 x 2000 random bytes, start kind Both, byte classes off, kind(DFA)): the build must report an error or return a DFA, never another kind. Oracle: build returns Ok without panic; an explicitly requested kind is kind(); patterns_len, min/max_pattern_len (non-empty collections), match_kind, start_kind equal the inputs; Automaton::pattern_len(i) == |P[i]| on the three low-level types; the non-overlapping iterator on a haystack containing some patterns equals the model (pattern ids are input positions). \
 Non-trivial = at least one stress shape is present (see classes shape:*). Distinct = distinct case fingerprint.",
     assumptions: &["documented size limits are not approached (state ids near i32::MAX are out of reach of memory)", "DFA builds are only requested while the estimated table stays below ~100 MB"],
     cases_quick: 60_000,
     cases_thorough: 1_000_000,
     strategy: c20_strategy,
     check: c20_check,
-    extra: None,
+    extra: Some(c20_extra),
     floors: &[
         ("shape:no-patterns", 1_000),
         ("shape:only-empty-patterns", 1_000),
